@@ -199,6 +199,9 @@ pub fn run_traced_rt(mk: &MkRuntime, sched: &Schedule, max_steps: u64, host: Hos
             if let Some(o) = fin {
                 if o == Outcome::Done {
                     t.value = render_top(&rt);
+                    if std::env::var("VERIF_DEBUG").is_ok() {
+                        eprintln!("main after Done: {:?}", rt.main());
+                    }
                 }
                 t.outcome = o;
                 break;
